@@ -38,4 +38,21 @@ theorem realResult_class_all (neg : Bool) (v n X : Nat) (FLAG : Bool) (off : Nat
       simp only [if_true]
       rw [or_sign_mod p neg h3]; exact h4
 
+/-- out of range for a mantissa below `10^19` and a decimal exponent of magnitude `≥ 10^8` -/
+theorem out_of_range_big (v k : Nat) (FLAG : Bool) (hv0 : 0 < v) (hv : v < 10 ^ 19) (hk : 400 ≤ k) :
+    (if FLAG then v * 2 ^ 1074 < 10 ^ k else (2 ^ 53 - 1) * 2 ^ 971 < v * 10 ^ k) := by
+  have hpow : (10 : Nat) ^ 400 ≤ 10 ^ k := Nat.pow_le_pow_right (by decide) hk
+  cases FLAG with
+  | true =>
+    simp only [if_true]
+    calc v * 2 ^ 1074 < 10 ^ 19 * 2 ^ 1074 := Nat.mul_lt_mul_of_pos_right hv (Nat.pow_pos (by decide))
+      _ ≤ 10 ^ 400 := by decide +kernel
+      _ ≤ 10 ^ k := hpow
+  | false =>
+    simp only [Bool.false_eq_true, if_false]
+    calc (2 ^ 53 - 1) * 2 ^ 971 < 1 * 10 ^ 400 := by decide +kernel
+      _ ≤ v * 10 ^ 400 := Nat.mul_le_mul_right _ hv0
+      _ ≤ v * 10 ^ k := Nat.mul_le_mul_left _ hpow
+
+
 end Qentem.StrToNum
